@@ -331,6 +331,33 @@ def make_cases(chk) -> list[dict]:
             st = pstep([("lit", head), ("ph",), ("lit", ", "), ("ph",), ("lit", tail)], style, [a, b])
         add("nopbound", style, [st], expect=[[("str", "Statement executed successfully.")]])
         cases[-1]["nop"] = True
+    # K7b': placeholders at different nesting depths: the i-th value belongs to the i-th placeholder IN TEXT ORDER (not in the
+    # order a tree walk meets them), whatever the statement's shape
+    def word():
+        return v_str("".join(rnd.choice("abcdefgXYZ019_ ") for _ in range(rnd.randint(1, 6))) + rnd.choice(["", "'", "%", "?"]))
+    for _ in range(max(40, n // 4)):
+        style = rnd.choice(["qmark", "qmark", "pyformat", "format"])
+        a, b, c, d, e = word(), word(), word(), word(), word()
+        k = rnd.random()
+        ph = ("ph",)
+        if k < 0.25:
+            pieces = [("lit", "select concat(concat("), ph, ("lit", ", '|'), '|'), "), ph, ("lit", ", (select concat('<', "), ph, ("lit", ")), "), ph]
+            vals, exp = [a, b, c, d], [[("str", a.py + "||"), ("str", b.py), ("str", "<" + c.py), ("str", d.py)]]
+        elif k < 0.5:
+            pieces = [("lit", "select case when "), ph, ("lit", " = "), ph, ("lit", " then "), ph, ("lit", " else "), ph, ("lit", " end, "), ph]
+            vals, exp = [a, a, c, d, e], [[("str", c.py), ("str", e.py)]]
+        elif k < 0.75:
+            pieces = [("lit", "select x.p, "), ph, ("lit", " from (select concat("), ph, ("lit", ", concat("), ph, ("lit", ", "), ph, ("lit", ")) as p) x where x.p <> "), ph]
+            vals, exp = [a, b, c, d, e], [[("str", b.py + c.py + d.py), ("str", a.py)]]
+            if b.py + c.py + d.py == e.py:
+                continue
+        else:
+            kid = next_id()
+            pieces = [("lit", f"insert into t (id, s, s2) select {kid}, concat(concat("), ph, ("lit", ", "), ph, ("lit", "), ''), "), ph]
+            steps = [pstep(pieces, style, [a, b, c]), plain(f"select s, s2 from t where id = {kid}")]
+            add("nest", style, steps, expect=[[("str", a.py + b.py), ("str", c.py)]])
+            continue
+        add("nest", style, [pstep(pieces, style, vals)], expect=exp)
     # K7c: the SAME container object (dict / tuple / list / list of rows) bound in 2-3 successive executes: every execute must bind
     # the values the caller put in, and the container must still be what the caller passed
     for _ in range(max(40, n // 4)):
